@@ -251,6 +251,9 @@ func c13Check(t tb, bc behContext) {
 
 func TestC13(t *testing.T) {
 	col := ev.Get()
+	behCrashIsViolation = func(crash string) bool {
+		return strings.Contains(crash, "does not implement expected interface")
+	}
 	var rc behCase
 	if replayPayload(t, &rc) {
 		if len(rc.Members) == 1 && len(rc.Members[0].Script.Ops) == 0 && len(rc.Members[0].Files) == 1 {
